@@ -91,6 +91,24 @@ the configuration writes `0.0` for "disabled" -/
 def discardCpp (k : Rat) (nisv : Rat) (m : Nat) : Bool :=
   if 0 < k then exceeds nisv k m else false
 
+/-- `S = H * Sigma * H.transpose() + Q` (left-associated) -/
+def innovCovCpp {m n : Nat} (H : QMat m n) (P : QMat n n) (Q : QMat m m) : QMat m m :=
+  ((H.mul P).mul H.transpose).add Q
+
+/-- the generated `sensor_model`: innovation recorded first, then the decision (threshold constant `k`, `0.0` = disabled), then
+`x + (Sigma Hᵀ S⁻¹) y` and `Sigma − K H Sigma`, all left-associated -/
+def sensorUpdateCpp {m n : Nat} (k : Rat) (H : QMat m n) (P : QMat n n) (Q : QMat m m)
+    (Sinv : QMat m m) (x : Fin n → Rat) (z hx : Fin m → Rat) : Option (UpdateOut n m) :=
+  let S := innovCovCpp H P Q
+  if (S.mul Sinv).eqb QMat.one then
+    let y : Fin m → Rat := fun i => z i - hx i
+    if discardCpp k (nis y Sinv) m then
+      some { state := x, cov := P, innovation := y, S := S, rejected := true }
+    else
+      some { state := fun i => x i + (((P.mul H.transpose).mul Sinv).mulVec y) i, cov := updCovCpp H P Sinv,
+             innovation := y, S := S, rejected := false }
+  else none
+
 /-! ### covariance histories (C09) -/
 
 inductive CovOp (n : Nat) where
@@ -171,6 +189,43 @@ def sensorJacobian (s : SensorDef) (env : Env Rat) : Option (QMat s.Lr.length d.
 def sensorNoiseMatrix (s : SensorDef) : QMat s.Lr.length s.Lr.length :=
   let noise := (d.sensorNoise.lookup s.key).getD []
   QMat.ofFn fun i j => if i = j then (noise.lookup (s.Lr.getD i.val "")).getD 0 else 0
+
+/-! ### everything whose order the generators decide -/
+
+/-- what is emitted for one sensor, in the order it is emitted -/
+structure EmittedSensor where
+  key : String
+  readings : List Name                   -- reading slots (accessor / option-field / row order)
+  spec : Option (List Expr)              -- predicted readings, one per slot
+  jac : Option (List Expr)               -- flattened sensor Jacobian over state ++ calibration columns
+  noise : List Rat                       -- diagonal of the reading covariance, one per slot
+  deriving Repr
+
+/-- what is emitted for a filter: argument order, update statements, flattened Jacobians, noise diagonals, and the sensors
+in sensor-id order -/
+structure Emitted where
+  arglist : List Name
+  update : Option (List Expr)
+  G : Option (List Expr)
+  V : Option (List Expr)
+  M : List Rat
+  sensors : List EmittedSensor
+  deriving Repr
+
+def emitSensor (s : SensorDef) : EmittedSensor where
+  key := s.key
+  readings := s.Lr
+  spec := s.spec
+  jac := s.spec.map fun sp => jacobianFlat sp (d.Ls ++ d.Lk)
+  noise := s.Lr.map fun r => (((d.sensorNoise.lookup s.key).getD []).lookup r).getD 0
+
+def emitted : Emitted where
+  arglist := d.model.arglist
+  update := d.model.spec
+  G := d.model.spec.map fun sp => jacobianFlat sp d.Ls
+  V := d.model.spec.map fun sp => jacobianFlat sp d.Lc
+  M := d.Lc.map fun u => (d.processNoise.lookup u).getD 0
+  sensors := (layout (d.sensors.map (·.key))).filterMap fun k => (d.sensor k).map d.emitSensor
 
 end EkfDef
 
